@@ -26,6 +26,7 @@ EXPLANATION = (
     "formatter package or in __format__/__str__/__repr__ writes the magnitude or units of its argument); memo "
     "discipline of the format helpers (the set of lru_cached helpers is the triaged one). Does not decide any rendered "
     "string or round-trip equality.")
+EXPLANATION += " Also decided (rules added after the second round of seeded changes): the sort functions' keys are total (no raise for a resolvable unit) and dim_order is a well-formed table containing the '[]' sentinel."
 
 # documented layouts (docs/user/formatting.rst and the docstrings of the format classes)
 LAYOUT = {
